@@ -3,7 +3,7 @@
    records until it has seen the replies it waits for; PBlock = Pending without a wake-up).  Proofs: Async/ConnTotal.v
    (totality), Async/ConnReads.v (accounting at every suspension point).  R is the reply specification of
    Parser/StreamSpec.v: the replies owed for a byte string by a parser in a given state. *)
-From FV Require Import Base.Bytes Gen.Generated Parser.ReqModel Parser.ReqTargets Parser.StreamModel Parser.AbsStream Parser.StreamSpec Parser.StreamRefine Parser.StreamInv Async.Conn Async.ConnWrites Async.ConnTotal Async.ConnReads.
+From FV Require Import Base.Bytes Gen.Generated Parser.ReqModel Parser.ReqTargets Parser.StreamModel Parser.AbsStream Parser.StreamSpec Parser.StreamRefine Parser.StreamInv Async.Conn Async.ConnWrites Async.ConnTotal Async.ConnReads Async.PeerTargets Async.PeerProofs.
 
 (* ==== pinned from the proof files (tools/write_props.py) ==== *)
 
@@ -115,3 +115,90 @@ Theorem C08_record_boundary_deadlock :
      sreq p' = sreq (rsp r) /\ R maxc (abs (rsp r)) (new ++ remaining w) = R maxc (abs p') (remaining w')).
 Proof. exact boundary_loop_deadlock. Qed.
 
+(* ---- the 'Hence' part, counted the way the waiting peer counts (complete EndRequest records; complete
+   GetValuesResult / UnknownType records in the bytes it received) ----  counting is additive over complete
+   records *)
+Theorem C08_counts_additive :
+  forall a b : bytes, whole a -> whole b -> counts (a ++ b) = cadd (counts a) (counts b).
+Proof. exact counts_app. Qed.
+
+(* every reply the stream parser owes is a complete record (for continuations made of bytes; the unrestricted
+   form is refuted below: a 'byte' 300 would be echoed) *)
+Theorem C08_replies_are_whole_records :
+  forall (maxc : N) (a : ast) (u : bytes), a_inv a -> bytes_ok u -> whole (a_out a) -> whole (R maxc a u).
+Proof. exact replies_whole_partial. Qed.
+
+(* ... refuted without that restriction *)
+Theorem C08_replies_whole_unrestricted_refuted :
+  ~ (forall (maxc : N) (a : ast) (u : bytes), a_inv a -> whole (a_out a) -> whole (R maxc a u)).
+Proof. exact replies_whole_full_is_false. Qed.
+
+(* every output of a request-parser call is a sequence of complete records *)
+Theorem C08_request_parser_output_whole :
+  forall (norm : bytes -> bytes) (maxc : N) (p : parser) (new : bytes) (p' : parser) 
+    (d : bool) (out : bytes),
+  parser_ok p ->
+  bytes_ok new -> len new <= input_space p -> parse norm maxc p new = POk p' d out -> whole out.
+Proof. exact parse_out_whole. Qed.
+
+(* a handler read that ends up waiting for the client has put into the log EXACTLY the replies the
+   specification owes for the bytes received during the read (pending output included), all complete records,
+   counted additively — and the client's gate is still not met *)
+Theorem C08_read_block_counts :
+  forall (maxc : N) (fuel : nat) (dest : option N) (r : rstate) (w w' : world),
+  pinv (rsp r) ->
+  bytes_ok (remaining w) ->
+  no_fault (wscript w) ->
+  whole (wlog w) ->
+  whole (output_buffer (rsp r)) ->
+  await_input maxc fuel dest r w = Halt ODeadlock w' ->
+  exists delivered : list N,
+    remaining w = delivered ++ remaining w' /\
+    wlog w' = wlog w ++ R maxc (abs (rsp r)) delivered /\
+    whole (R maxc (abs (rsp r)) delivered) /\
+    counts (wlog w') = cadd (counts (wlog w)) (counts (R maxc (abs (rsp r)) delivered)) /\
+    (exists ge gm : N,
+       next_gate w' = Some (ge, gm) /\ (fst (counts (wlog w')) < ge \/ snd (counts (wlog w')) < gm)).
+Proof. exact read_block_counts. Qed.
+
+(* MAIN (the peer of the property): if every gate of the client asks for no more than what is already in the
+   log plus the replies owed (by the specification) for the bytes of the segments before it, a handler read
+   NEVER ends in the wait-for cycle — whatever the transport's read/write readiness pattern *)
+Theorem C08_peer_read_never_deadlocks :
+  forall (maxc : N) (fuel : nat) (dest : option N) (r : rstate) (w w' : world),
+  pinv (rsp r) ->
+  bytes_ok (remaining w) ->
+  no_fault (wscript w) ->
+  whole (wlog w) ->
+  whole (output_buffer (rsp r)) ->
+  (forall (pre : list (N * N * bytes)) (ge gm : N) (b : bytes) (post : list (N * N * bytes)),
+   segs w = pre ++ (ge, gm, b) :: post ->
+   b <> [] ->
+   let owed := cadd (counts (wlog w)) (counts (R maxc (abs (rsp r)) (flat pre))) in
+   ge <= fst owed /\ gm <= snd owed) -> await_input maxc fuel dest r w <> Halt ODeadlock w'.
+Proof. exact peer_read_no_deadlock. Qed.
+
+(* between requests: the log has grown by exactly the (complete-record) outputs of the parse calls made,
+   counted additively, when parse_request waits for the client *)
+Theorem C08_parse_request_block_counts :
+  forall (norm : bytes -> bytes) (maxc : N) (fuel : nat) (p : parser) (new : bytes) (w w' : world),
+  parser_ok p ->
+  bytes_ok new ->
+  len new <= input_space p ->
+  world_ok w ->
+  no_fault (wscript w) ->
+  whole (wlog w) ->
+  parse_request norm maxc fuel p new w = Halt ODeadlock w' ->
+  exists outs : list bytes,
+    pr_chain norm maxc p new outs /\
+    wlog w' = wlog w ++ concat outs /\
+    whole (concat outs) /\
+    counts (wlog w') = cadd (counts (wlog w)) (counts (concat outs)) /\
+    (exists ge gm : N,
+       next_gate w' = Some (ge, gm) /\ (fst (counts (wlog w')) < ge \/ snd (counts (wlog w')) < gm)).
+Proof. exact parse_request_block_counts. Qed.
+
+(* non-vacuity of C08_peer_read_never_deadlocks: a GetValues query in the first segment, the second segment gated on its
+   reply (gm = 1): all hypotheses hold, the read returns the Stdin bytes; with the gate at 2 replies the read does deadlock *)
+Example C08_peer_example : forall fuel dest w', await_input 10 fuel dest ex_peer_r ex_peer_w <> Halt ODeadlock w'.
+Proof. exact ex_peer_no_deadlock. Qed.
